@@ -92,6 +92,8 @@ type FnCtx struct {
 	symIndex    map[string][]int
 	symIndexed  int
 	sliceMu     sync.Mutex
+	inlineDepth int
+	inlineStack []*ssa.Function
 }
 
 type retPoint struct {
@@ -124,6 +126,10 @@ func (fc *FnCtx) pos(p token.Pos) token.Position {
 
 // oblige records a proof obligation: under the current assertions, st.reach => goal.
 func (fc *FnCtx) oblige(st *State, kind, label, goal string, p token.Pos, props []string) *Obligation {
+	if fc.inlineDepth > 0 {
+		// the body of an inlined callee generates no obligations of its own (it is not a function under contract)
+		return &Obligation{Fn: fc.name, Kind: kind, Label: label}
+	}
 	g := implies(st.reach, goal)
 	if g == "true" {
 		// trivially valid; still count it so that the lock is stable
@@ -682,6 +688,18 @@ func (g *Gen) genFunction(fn *ssa.Function, con *Contract, safety bool) *FnCtx {
 			o.MustSat = true
 		}
 	}
+	fc.runBlocks(st)
+	if fc.err != nil {
+		return fc
+	}
+	fc.finish()
+	return fc
+}
+
+// runBlocks executes the body of fc.fn from state st (reverse post-order of the acyclic graph, loops through their
+// invariants); the return points are collected in fc.returns.
+func (fc *FnCtx) runBlocks(st *State) {
+	fn := fc.fn
 	// process blocks in reverse post-order of the acyclic graph
 	order := fc.topoOrder()
 	states := map[*ssa.BasicBlock]*State{fn.Blocks[0]: st}
@@ -717,7 +735,7 @@ func (g *Gen) genFunction(fn *ssa.Function, con *Contract, safety bool) *FnCtx {
 		fc.curBlock = b
 		fc.execBlock(cur, b)
 		if fc.err != nil {
-			return fc
+			return
 		}
 		fc.exitStates[b] = cur
 		// back edges: check invariants
@@ -727,8 +745,6 @@ func (g *Gen) genFunction(fn *ssa.Function, con *Contract, safety bool) *FnCtx {
 			}
 		}
 	}
-	fc.finish()
-	return fc
 }
 
 // checkInvokesFirst: the `invokes p` directive promises that p is called in the entry block before any other effect.
@@ -1096,8 +1112,18 @@ func (fc *FnCtx) closeLoop(li *loopInfo, st *State, edgeCond string) {
 
 // finish: postconditions at the merged exit, frame check.
 func (fc *FnCtx) finish() {
-	if len(fc.returns) == 0 {
+	exit, results := fc.mergeReturns()
+	if exit == nil {
 		return
+	}
+	fc.finishContract(exit, results)
+}
+
+// mergeReturns: the state and the result values at function exit (merge over all return points); nil when the function
+// has no reachable return.
+func (fc *FnCtx) mergeReturns() (*State, []Val) {
+	if len(fc.returns) == 0 {
+		return nil, nil
 	}
 	var preds []parentLink
 	for _, r := range fc.returns {
@@ -1140,6 +1166,10 @@ func (fc *FnCtx) finish() {
 	for i := range results {
 		results[i].Typ = fc.fn.Signature.Results().At(i).Type()
 	}
+	return exit, results
+}
+
+func (fc *FnCtx) finishContract(exit *State, results []Val) {
 	if fc.con == nil {
 		return
 	}
